@@ -98,14 +98,12 @@ theorem pop_after_timeout_keyerror (evs1 evs2 : List Ev) (c : Nat)
     rw [← hfin] at this
     exact this
 
-/-- outstanding (= registered in the table) ⇔ a timer is waiting for it, as long as no shutdown of either kind has
-    happened; a waiting timer always belongs to an outstanding request -/
+/-- outstanding (= registered in the table under its own identity) ⇔ a timer is waiting for it — in every reachable
+    state: there is no registered request without a timer and no timer without its registered request -/
 theorem outstanding_iff_timer_waiting (evs : List Ev) (c : Nat) :
-    (((final init evs).caches c).task.isSome = true → outstanding (final init evs) c)
-    ∧ ((final init evs).shutdown = false →
-        (outstanding (final init evs) c ↔ ((final init evs).caches c).task.isSome = true)) := by
+    outstanding (final init evs) c ↔ ((final init evs).caches c).task.isSome = true := by
   have h := reach_inv evs
-  refine ⟨fun ht => h.taskOk c ht, fun hs => ⟨fun ho => (h.idsOk _ _ ho).2.2 hs, fun ht => h.taskOk c ht⟩⟩
+  exact ⟨fun ho => (h.idsOk _ _ ho).2.2, fun ht => h.taskOk c ht⟩
 
 /-- UNIQUE IDENTITY.  While a request is registered under (p, n): constructing another cache for (p, n) raises
     (`NumberCache.__init__` guard); adding ANY cache object with that identity is not answered `added` and leaves the
@@ -212,12 +210,14 @@ theorem futures_completed_on_timeout (s : St) (c : Nat) (hr : s.running = some c
       exact complete_not_pending g
     · intro f hf; simp [Fut.complete, hf]
 
-/-- SHUTDOWN IS FINAL.  After an accepted `RequestCache.shutdown()` — whatever happened before, including an earlier
-    `shutdown_task_manager()` on the same object: the managed futures of every request that was still registered are
-    cancelled (none pending); the table is empty and stays empty; in every continuation no timeout fires and nothing is
-    registered; and every `add` of a constructed cache with a legal delay is dropped with its futures cancelled. -/
-theorem shutdown_final (evs1 : List Ev) (hacc : (step (final init evs1) .shutdown).2 = .done) :
-    let s1 := (step (final init evs1) .shutdown).1
+/-- SHUTDOWN IS FINAL.  After an accepted shutdown — `RequestCache.shutdown()` or the inherited
+    `shutdown_task_manager()` called on the request cache (`e`), whatever happened before: the managed futures of
+    every request that was still registered are cancelled (none pending); the table is empty and stays empty, so nothing
+    is outstanding ever again; in every continuation no timeout fires, nothing is registered, nothing is claimed; and
+    every `add` of a constructed cache with a legal delay is dropped with its futures cancelled. -/
+theorem shutdown_final (evs1 : List Ev) (e : Ev) (he : e = .shutdown ∨ e = .tmShutdown)
+    (hacc : (step (final init evs1) e).2 = .done) :
+    let s1 := (step (final init evs1) e).1
     (∀ c, outstanding (final init evs1) c → ∀ f ∈ (s1.caches c).futs, f.st ≠ .pending)
     ∧ (∀ evs2, (final s1 evs2).ids = [] ∧ ∀ c, ¬ outstanding (final s1 evs2) c)
     ∧ (∀ evs2 c, Reply.timedOut c ∉ trace s1 evs2 ∧ Reply.added c ∉ trace s1 evs2 ∧ Reply.claimed c ∉ trace s1 evs2)
@@ -225,24 +225,37 @@ theorem shutdown_final (evs1 : List Ev) (hacc : (step (final init evs1) .shutdow
           (step (final s1 evs2) (.add c)).2 = .droppedShutdown
           ∧ ∀ f ∈ ((step (final s1 evs2) (.add c)).1.caches c).futs, f.st ≠ .pending) := by
   intro s1
-  have h0 := reach_inv evs1
   have hrun : (final init evs1).running = none := by
     cases hr : (final init evs1).running with
     | none => rfl
-    | some r => simp [step, hr] at hacc
-  have hfin : s1 = final init (evs1 ++ [.shutdown]) := by
+    | some r => rcases he with rfl | rfl <;> simp [step, hr] at hacc
+  have hfin : s1 = final init (evs1 ++ [e]) := by
     simp [s1, final_append, final_cons, final_nil]
   have h1 : Inv s1 := by rw [hfin]; exact reach_inv _
-  have hsd : s1.shutdown = true := by simp [s1, step, hrun]
-  have hids : s1.ids = [] := by simp [s1, step, hrun]
+  have hsd : s1.shutdown = true := by
+    rcases he with rfl | rfl
+    · simp [s1, step, hrun]
+    · simp only [s1, step, hrun, Option.isSome_none, Bool.false_eq_true, if_false]
+      split <;> simp_all
+  have hids : s1.ids = [] := by
+    rcases he with rfl | rfl
+    · simp [s1, step, hrun]
+    · simp only [s1, step, hrun, Option.isSome_none, Bool.false_eq_true, if_false]
+      split <;> rfl
   have hempty : ∀ evs2, (final s1 evs2).ids = [] := fun evs2 => run_empty_after_shutdown s1 evs2 hsd hids
   refine ⟨?_, ?_, ?_, ?_⟩
   · intro c ho f hf
     have hv := lookup_hasVal (show lookup _ _ = some c from ho)
-    simp only [s1, step, hrun, Option.isSome_none, Bool.false_eq_true, if_false, hv, if_true,
-      Cache.cancelFuts, List.mem_map] at hf
-    obtain ⟨g, _, rfl⟩ := hf
-    exact cancel_not_pending g
+    rcases he with rfl | rfl
+    · simp only [s1, step, hrun, Option.isSome_none, Bool.false_eq_true, if_false, hv, if_true,
+        Cache.cancelFuts, List.mem_map] at hf
+      obtain ⟨g, _, rfl⟩ := hf
+      exact cancel_not_pending g
+    · simp only [s1, step, hrun, Option.isSome_none, Bool.false_eq_true, if_false] at hf
+      split at hf <;>
+        (simp only [hv, if_true, Cache.cancelFuts, List.mem_map] at hf
+         obtain ⟨g, _, rfl⟩ := hf
+         exact cancel_not_pending g)
   · intro evs2
     refine ⟨hempty evs2, fun c ho => ?_⟩
     have ho' : lookup _ (final s1 evs2).ids = some c := ho
@@ -251,11 +264,11 @@ theorem shutdown_final (evs1 : List Ev) (hacc : (step (final init evs1) .shutdow
   · intro evs2 c
     have h2 := run_after_shutdown s1 evs2 h1 hsd c
     refine ⟨h2.1, h2.2, ?_⟩
-    have hno : ¬ outstanding (final init (evs1 ++ [.shutdown])) c := by
+    have hno : ¬ outstanding (final init (evs1 ++ [e])) c := by
       rw [← hfin]; intro ho
       have ho' : lookup _ s1.ids = some c := ho
       rw [hids] at ho'; simp at ho'
-    have := resolved_is_final (evs1 ++ [.shutdown]) evs2 c hno (by rw [← hfin]; exact h2.2)
+    have := resolved_is_final (evs1 ++ [e]) evs2 c hno (by rw [← hfin]; exact h2.2)
     rw [← hfin] at this
     exact this.1
   · intro evs2 c hc hd
@@ -267,45 +280,6 @@ theorem shutdown_final (evs1 : List Ev) (hacc : (step (final init evs1) .shutdow
     simp [step, hc', hd', hs2, Cache.cancelFuts] at hf
     obtain ⟨g, _, rfl⟩ := hf
     exact cancel_not_pending g
-
-/-- THE INHERITED SHUTDOWN.  After `shutdown_task_manager()` was called on the request cache object (same `_shutdown`
-    flag): in every continuation no timeout fires and nothing is registered; the requests that were outstanding stay
-    in the table — each can still be claimed at most once — until `RequestCache.shutdown()` runs, which is then still
-    accepted and does everything `shutdown_final` says (its futures clause covers exactly those requests). -/
-theorem task_manager_shutdown_then_shutdown (evs1 evs2 : List Ev)
-    (hacc : (step (final init evs1) .tmShutdown).2 = .done) :
-    let s1 := (step (final init evs1) .tmShutdown).1
-    (∀ c, Reply.timedOut c ∉ trace s1 evs2 ∧ Reply.added c ∉ trace s1 evs2)
-    ∧ (∀ c, outstanding (final init evs1) c → outstanding s1 c)
-    ∧ ((final s1 evs2).running = none ∧ (step (final s1 evs2) .shutdown).2 = .done)
-    ∧ (∀ c, outstanding (final s1 evs2) c →
-          ∀ f ∈ ((step (final s1 evs2) .shutdown).1.caches c).futs, f.st ≠ .pending)
-    ∧ (step (final s1 evs2) .shutdown).1.ids = [] := by
-  intro s1
-  have hrun : (final init evs1).running = none := by
-    cases hr : (final init evs1).running with
-    | none => rfl
-    | some r => simp [step, hr] at hacc
-  have hfin : s1 = final init (evs1 ++ [.tmShutdown]) := by
-    simp [s1, final_append, final_cons, final_nil]
-  have h1 : Inv s1 := by rw [hfin]; exact reach_inv _
-  have hsd : s1.shutdown = true := by
-    simp only [s1, step, hrun, Option.isSome_none, Bool.false_eq_true, if_false]
-    split <;> simp_all
-  have h2 := run_inv s1 evs2 h1
-  have hs2 := run_shutdown_mono s1 evs2 hsd
-  have hr2 : (final s1 evs2).running = none := (h2.sdOk hs2).2
-  have hacc2 : (step (final s1 evs2) .shutdown).2 = .done := by simp [step, hr2]
-  have hall : final s1 evs2 = final init (evs1 ++ [.tmShutdown] ++ evs2) := by rw [final_append, ← hfin]
-  refine ⟨fun c => run_after_shutdown s1 evs2 h1 hsd c, ?_, ⟨hr2, hacc2⟩, ?_, by simp [step, hr2]⟩
-  · intro c ho
-    simp only [s1, step, hrun, Option.isSome_none, Bool.false_eq_true, if_false]
-    split
-    · exact ho
-    · exact ho
-  · intro c ho
-    rw [hall] at ho hacc2 ⊢
-    exact (shutdown_final _ hacc2).1 c ho
 
 /-- A managed future that is done (completed by a timeout, cancelled by shutdown, resolved by its consumer) keeps that
     state under every later event: "completed on timeout" and "cancelled on shutdown" are permanent. -/
@@ -403,8 +377,8 @@ theorem find_unclaimed_sound (s : St) (p : Nat) (cands : List Nat) (d : Option N
     at any other time).  Then over `evs2`:
         claims of c + timeouts of c + [c outstanding at the end] = registrations of c + [c outstanding at the start].
     So every registration that is not dropped by clear/shutdown and is no longer outstanding was resolved by exactly
-    one claim or exactly one timeout — never both, never neither; and by `timeout_exactly_at_deadline` one that is
-    still outstanding is still before its deadline. -/
+    one claim or exactly one timeout — never both, never neither; one that is still outstanding has a waiting timer
+    (`outstanding_iff_timer_waiting`) that is not past its deadline (`timeout_exactly_at_deadline`). -/
 theorem exactly_once (evs1 evs2 : List Ev) (c : Nat)
     (hnodrop : NoDropWhileOutstanding (final init evs1) c evs2) :
     (trace (final init evs1) evs2).count (.claimed c) + (trace (final init evs1) evs2).count (.timedOut c)
@@ -457,20 +431,19 @@ theorem timeout_enabled_when_due (evs : List Ev) (c : Nat) :
     history and every cache object c:
     (1) claims + timeouts never exceed registrations, with equality up to "still outstanding" when clear/shutdown never
         hit c while it was outstanding;
-    (2) while no shutdown of either kind has happened, c is outstanding exactly while a timer is waiting for it, and no
-        other object with that identity is outstanding;
+    (2) c is outstanding exactly while a timer is waiting for it, and no other object with that identity is outstanding;
     (3) a waiting timer has not passed its deadline (its timeout is due exactly at the deadline);
-    (4) once shut down (either way) no timer is left. -/
+    (4) once shut down (either way) nothing is outstanding and no timer is left. -/
 theorem each_request_resolved_exactly_once (evs : List Ev) (c : Nat) :
     let s := final init evs
     let tr := trace init evs
     (tr.count (.claimed c) + tr.count (.timedOut c) ≤ tr.count (.added c))
     ∧ (NoDropWhileOutstanding init c evs →
          tr.count (.claimed c) + tr.count (.timedOut c) + (if outstanding s c then 1 else 0) = tr.count (.added c))
-    ∧ (s.shutdown = false → (outstanding s c ↔ (s.caches c).task.isSome = true))
+    ∧ (outstanding s c ↔ (s.caches c).task.isSome = true)
     ∧ (∀ c', outstanding s c → outstanding s c' → (s.caches c').ident = (s.caches c).ident → c' = c)
     ∧ (∀ dl, (s.caches c).task = some dl → s.now ≤ dl)
-    ∧ (s.shutdown = true → (s.caches c).task = none) := by
+    ∧ (s.shutdown = true → ¬ outstanding s c ∧ (s.caches c).task = none) := by
   intro s tr
   have h := reach_inv evs
   have hex : NoDropWhileOutstanding init c evs →
@@ -481,14 +454,17 @@ theorem each_request_resolved_exactly_once (evs : List Ev) (c : Nat) :
     have h0 : outstanding init c = False := by simp [outstanding, init]
     simp only [h0, if_false, Nat.add_zero] at this
     exact this
-  refine ⟨at_most_once evs c, hex, (outstanding_iff_timer_waiting evs c).2, ?_, ?_, ?_⟩
+  refine ⟨at_most_once evs c, hex, outstanding_iff_timer_waiting evs c, ?_, ?_, ?_⟩
   · intro c' ho ho' hid
     have h1 : lookup (s.caches c).ident s.ids = some c := ho
     have h2 : lookup (s.caches c').ident s.ids = some c' := ho'
     rw [hid, h1] at h2
     exact (Option.some.inj h2).symm
   · intro dl ht; exact h.timeOk c dl ht
-  · intro hs; exact (h.sdOk hs).1 c
+  · intro hs
+    refine ⟨fun ho => ?_, (h.sdOk hs).2.1 c⟩
+    have ho' : lookup _ s.ids = some c := ho
+    rw [(h.sdOk hs).1] at ho'; simp at ho'
 
 /-! ### rules R1/R2 at the level of asyncio.Task (AsyncTask.lean: a transcription of Task.cancel / __step / the sleep
     future of delay_runner).  For every sequence of loop steps, timer callbacks, body ends and cancel() calls on one
@@ -619,7 +595,7 @@ example :
   from the current source; `Source.lean` gives each primitive its meaning.  The six theorems below say that executing
   those lists is the same function as the hand-written `step` used by every theorem above — so all of them hold for
   the statement order the source has today, and an edit that drops / adds / reorders an effectful statement of these
-  methods (identifier removed after on_timeout, pop without cancel, identifier stored before register_task, trailing
+  methods (not: a change of exception flow, which the translator either refuses — `suppress` — or cannot see) (identifier removed after on_timeout, pop without cancel, identifier stored before register_task, trailing
   cancel in `_on_timeout`, shutdown without cancelling futures …) makes one of them fail to compile. -/
 
 theorem add_follows_source (s : St) (c : Nat) : addViaSource s c = step s (.add c) := by
@@ -654,6 +630,15 @@ theorem shutdown_follows_source (s : St) : shutdownViaSource s = step s .shutdow
     simp only [step, hr, Gen.shutdownOps, runPrims, List.foldl, result, prim, Option.isSome_none,
       Bool.false_eq_true, if_false, Option.getD_some]
     congr 2
+
+theorem tmShutdown_follows_source (s : St) : tmShutdownViaSource s = step s .tmShutdown := by
+  unfold tmShutdownViaSource
+  cases hr : s.running with
+  | some r => simp [step, hr]
+  | none =>
+    cases hs : s.shutdown with
+    | true => simp [step, hr, hs, Gen.tmShutdownOps, runPrims, result, prim]
+    | false => simp [step, hr, hs, Gen.tmShutdownOps, runPrims, result, prim]
 
 theorem fireBegin_follows_source (s : St) (c : Nat) : fireBeginViaSource s c = step s (.fireBegin c) := by
   unfold fireBeginViaSource
@@ -719,13 +704,13 @@ example : ((final init [.mk 0 1 (some 250) 0 [false, true], .add 0, .tick 250, .
 example : NoDropWhileOutstanding (final init [.mk 0 1 (some 250) 0 [], .add 0, .clear]) 1
     [.mk 0 1 (some 250) 0 [], .clear, .add 1, .pop 0 1] := by
   refine ⟨by decide, by decide, by decide, by decide, trivial⟩
-/-- teardown glue: `shutdown_task_manager()` first (timers die, requests stay claimable), then `shutdown()` cancels
-    the futures and empties the table; a timeout never fires in between -/
+/-- teardown glue: `shutdown_task_manager()` on the cache IS a shutdown: futures cancelled, requests gone, no late
+    timeout, a following `shutdown()` is accepted and finds nothing left -/
 example : trace init [.mk 0 1 (some 250) 0 [false], .mk 0 2 (some 250) 0 [true], .add 0, .add 1, .tmShutdown,
-                      .tick 500, .fireBegin 0, .pop 0 1, .get 0 2, .shutdown, .get 0 2]
-    = [.okMk 0 1, .okMk 1 2, .added 0, .added 1, .done, .overdue [], .refused, .claimed 0, .got (some 1), .done,
-       .got none] := by decide
-example : ((final init [.mk 0 2 (some 250) 0 [true], .add 0, .tmShutdown, .shutdown]).caches 0).futs.map (·.st)
+                      .tick 500, .fireBegin 0, .pop 0 1, .get 0 2, .shutdown, .add 0]
+    = [.okMk 0 1, .okMk 1 2, .added 0, .added 1, .done, .overdue [], .refused, .keyError, .got none, .done,
+       .droppedShutdown] := by decide
+example : ((final init [.mk 0 2 (some 250) 0 [true], .add 0, .tmShutdown]).caches 0).futs.map (·.st)
     = [.cancelled] := by decide
 /-- clear drops an outstanding request: its timer never fires, a late pop finds nothing -/
 example : trace init [.mk 0 1 (some 1000) 0 [false], .add 0, .clear, .tick 1000, .fireBegin 0, .pop 0 1]
